@@ -77,6 +77,34 @@ G(name="dns_decode_answer_other", harness="h_dns.c", entry="h_dns_decode", defs=
 G(name="dns_get_id", harness="h_dns.c", entry="h_dns_get_id", style="legacy", enforce=["dns_get_id"], checks=PARSE_CHECKS,
   props={"C12": "all", "C05": "safety", "C06": "safety"}, cost=1, what="dns_get_id reads the first two bytes only, 0 for short packets")
 
+G(name="check_topdomain", harness="h_common.c", entry="h_check_topdomain", enforce=["check_topdomain"], style="legacy", unwind=133,
+  props={"C17": "all", "C05": "safety", "C06": "safety"}, min_obl=20, timeout=600, cost=60, kind="proof",
+  what="check_topdomain(str, allow_wildcard) == reference acceptor for EVERY string of length 0..130 (every longer string is rejected before the loop: covered symbolically up to 130, the loop bound 128 is the function's own); exhaustive unwinding with unwinding assertions")
+
+G(name="query_datalen_b", harness="h_common.c", entry="h_query_datalen", defs=["QMAX=24", "TMAX=12", "NMAX=14"], enforce=["query_datalen"], style="legacy", unwind=26,
+  props={"C17": "all", "C05": "safety"}, min_obl=20, timeout=600, cost=100, kind="bounded", bound="query name <= 24 characters without '..', accepted domain <= 12 characters",
+  what="query_datalen(q, t) == reference matcher (decision and data length) for every name of at most 24 characters and every accepted plain or wildcard domain of at most 12")
+
+G(name="login_value", harness="h_login.c", entry="h_login_value", enforce=["login_calculate"], style="legacy", unwind=65,
+  checks=[], cbmc_flags=["--no-standard-checks"], props={"C19": "all"}, min_obl=1, timeout=1500, timeout_thorough=3600, cost=400, mem_gb=24,
+  replay={"entry": "w_login", "unwind": 65, "timeout": 600},
+  what="miter: real login_calculate (login.c + md5.c) vs RFC-1321 MD5 of the documented construction, all 2^256 passwords x 2^32 challenges; loops have literal bounds 8/16/32/64, unrolled exactly")
+G(name="login_footprint", harness="h_login.c", entry="h_login_footprint", enforce=["login_calculate"], style="legacy", unwind=65,
+  discard_cls=[], props={"C19": "all", "C05": "safety", "C06": "safety"}, min_obl=20, timeout=600, cost=30,
+  what="login_calculate reads exactly pass[0..32), writes exactly buf[0..16), nothing when buflen < 16; md5.c safety obligations")
+
+for fn, ent, uw in (("fw_query_put", "h_fwq_put", 18), ("fw_query_get", "h_fwq_get", 18), ("fw_query_init", "h_fwq_init", 18), ("fw_query ring lemma", "h_fwq_ring", 18)):
+    G(name=ent[2:], harness="h_fwq.c", entry=ent, enforce=[fn], style="legacy", unwind=uw, props={"C20": "all", "C05": "safety"}, min_obl=3, cost=5,
+      what="%s: ring of literal size 16, arbitrary prior state, ghost slot/byte index; loops unrolled exactly" % fn)
+
+for ent, fn, props, what in (
+    ("h_init_users", "init_users", {"C18": "all", "C05": "safety"}, "init_users for every server address and /8../30: count, distinct, in-subnet, not server/network/broadcast, flags zero"),
+    ("h_find_user_by_ip", "find_user_by_ip", {"C18": "all", "C04": "all", "C05": "safety"}, "find_user_by_ip returns exactly the first live logged-in owner, -1 iff none; table unchanged"),
+    ("h_find_available_user", "find_available_user", {"C04": "all", "C03": "all", "C05": "safety"}, "find_available_user never takes a slot active in the last 60 s, resets authentication on the slot it takes, leaves the others unchanged"),
+    ("h_all_users_waiting", "all_users_waiting_to_send", {"C05": "safety"}, "all_users_waiting_to_send: safety"),
+    ("h_user_setters", "user_switch_codec", {"C04": "all", "C05": "safety"}, "user_switch_codec/user_set_conn_type: range-checked userid, only the named slot")):
+    G(name=ent[2:], harness="h_user.c", entry=ent, enforce=[fn], style="legacy", unwind=33, shrink="user.c", cbmc_flags=["--no-array-field-sensitivity"], props=props, min_obl=5, cost=20, timeout=600, what=what)
+
 LEVELS = {}
 TRUSTED_BASE = ["CBMC 6.11.0 (goto-cc front end, goto-instrument --dfcc contract instrumentation, symex)",
                 "kissat (SAT back end)", "gcc -E (expansion of spec macros inside loop contracts)"]
